@@ -281,7 +281,17 @@ def sample_n_inputs_pipeline(ctx, res: Result, fi: FuncInfo) -> None:
     det = [a for a in lp.body if isinstance(a, ast.Assign) and isinstance(a.value, ast.Call) and src(a.value.func).endswith("_get_output")]
     inst = fi.qualname
     if not det or lp.body.index(det[0]) != 0 or src(det[0].value.args[0]) != elem:
-        res.bad("I-pipeline-order", inst + ":detector-first", fi.site(lp), fi.qualname, "the detector response is not the first step applied to each drawn sample", construct=src(lp.body[0])[:120])
+        anywhere = [c for c in ast.walk(lp) if isinstance(c, ast.Call) and src(c.func).endswith("_get_output") and c.args and src(c.args[0]) == elem]
+        earlier_use = [n for st_ in lp.body for n in ast.walk(st_) if isinstance(n, ast.Name) and n.id == elem and isinstance(n.ctx, ast.Load)]
+        if anywhere:
+            first_use = min(earlier_use, key=lambda n: (n.lineno, n.col_offset)) if earlier_use else None
+            arg0 = anywhere[0].args[0]
+            if first_use is arg0 or first_use is None:
+                res.frozen(False, "I-pipeline-order", inst + ":detector-first", fi.site(anywhere[0]), fi.qualname, "", "the detector response is applied to the drawn sample first, but the rest of the per-sample pipeline is not in the recognised straight-line form (state-space rules B1/B3/B4/B5 still apply)", construct=src(lp.body[0])[:120])
+            else:
+                res.bad("I-pipeline-order", inst + ":detector-first", fi.site(lp), fi.qualname, "the drawn sample is used before the detector response is applied to it", construct=src(lp.body[0])[:120])
+        else:
+            res.bad("I-pipeline-order", inst + ":detector-first", fi.site(lp), fi.qualname, "the detector response is not applied to each drawn sample", construct=src(lp.body[0])[:120])
         return
     D = src(det[0].targets[0])
     res.ok("I-pipeline-order", inst + ":detector-first", fi.site(det[0]), fi.qualname, f"detector output `{D}` computed first")
@@ -339,10 +349,23 @@ def sample_n_outputs_pipeline(ctx, res: Result, fi: FuncInfo) -> None:
     s, p = (x.id for x in lp.target.elts)
     first = lp.body[0]
     thr_ok = isinstance(first, ast.If) and src(first.test).replace(" ", "") == "notself.detector.photon_counting" and any(isinstance(a, ast.Assign) and src(a.targets[0]) == s and ("min(i,1)" in src(a.value).replace(" ", "") or "1ifi>=1else0" in src(a.value).replace(" ", "") or "1ifi>0else0" in src(a.value).replace(" ", "")) for a in first.body)
-    res.add(thr_ok, "I-pipeline-order", inst + ":threshold-first", fi.site(first), fi.qualname, "threshold detection is applied to the full state before the herald test", "threshold detection is not applied (first) to each output when photon counting is off", construct=src(first)[:160])
+    if thr_ok:
+        res.ok("I-pipeline-order", inst + ":threshold-first", fi.site(first), fi.qualname, "threshold detection is applied to the full state before the herald test")
+    else:
+        pos_thr = next((i_ for i_, st_ in enumerate(lp.body) if "photon_counting" in src(st_)), None)
+        pos_her = next((i_ for i_, st_ in enumerate(lp.body) if "herald" in src(st_) and any(isinstance(x, ast.Compare) for x in ast.walk(st_))), None)
+        if pos_thr is not None and pos_her is not None and pos_thr > pos_her:
+            res.bad("I-pipeline-order", inst + ":threshold-first", fi.site(lp.body[pos_thr]), fi.qualname, "threshold detection is applied after the herald test: a herald mode holding two or more photons clicks once on a threshold detector and must satisfy a one-photon herald", construct=src(lp.body[pos_thr])[:160])
+        elif pos_thr is not None and pos_her is not None and pos_thr == pos_her:
+            res.frozen(False, "I-pipeline-order", inst + ":threshold-first", fi.site(first), fi.qualname, "", "threshold detection and herald test are in one statement", construct=src(first)[:160])
+        else:
+            res.frozen(False, "I-pipeline-order", inst + ":threshold-first", fi.site(first), fi.qualname, "", "threshold-detection step not recognised", construct=src(first)[:160])
     hl = [l for l in lp.body if isinstance(l, ast.For) and "herald" in src(l.iter)]
     if not hl:
-        res.bad("I-pipeline-order", inst + ":herald-test", fi.site(lp), fi.qualname, "no herald test when converting the distribution", construct=src(lp)[:100])
+        if any("herald" in src(st_) and any(isinstance(x, ast.Compare) for x in ast.walk(st_)) for st_ in lp.body):
+            res.frozen(False, "I-pipeline-order", inst + ":herald-test", fi.site(lp), fi.qualname, "", "herald test is not in the recognised loop form", construct=src(lp)[:100])
+        else:
+            res.bad("I-pipeline-order", inst + ":herald-test", fi.site(lp), fi.qualname, "no herald test when converting the distribution", construct=src(lp)[:100])
         return
     h = hl[0]
     tests = [n for n in ast.walk(h) if isinstance(n, ast.Compare) and isinstance(n.left, ast.Subscript)]
